@@ -154,8 +154,10 @@ Theorem C12_accept : forall g retry o ob,
 Proof. exact accept_commit. Qed.
 Print Assumptions C12_accept.
 
+(* [chains_known]: every chain key of the observation has a configured F (validateObservedChains, repair of F13d) —
+   a rejection for an unconfigured chain is not a rejection on role grounds *)
 Theorem C12_accept_exec : forall g o ob,
-  known_oracle g o = true -> wf_exec ob = true ->
+  known_oracle g o = true -> wf_exec ob = true -> chains_known g ob = true ->
   (forall cl c, In (cl, c) (efields g ob) -> designated g o c = true) ->
   validate_exec g o ob = true.
 Proof. exact accept_exec. Qed.
@@ -178,6 +180,7 @@ Proof. exact validate_commit_factor. Qed.
 Print Assumptions C12_commit_verdict.
 
 Theorem C12_exec_verdict : forall g o ob,
-  validate_exec g o ob = known_oracle g o && wf_exec ob && forallb (field_pass g o) (efields g ob).
+  validate_exec g o ob =
+  known_oracle g o && wf_exec ob && forallb (field_pass g o) (efields g ob) && chains_known g ob.
 Proof. exact validate_exec_factor. Qed.
 Print Assumptions C12_exec_verdict.
